@@ -56,6 +56,14 @@ pub fn run_grid(run: &Run, tier: Tier, profile: &str, shard: usize, nshards: usi
   let depth = if thorough { 3 } else { 2 };
   let or = O_ERRSTATE | O_SHADOW | O_CAPALIGN | O_FREELIST | O_ZERO | O_BOUNDS;
   let mut cells = crate::props_hist::cells(&[(Backend::Vec, false), (Backend::Vec, true), (Backend::Anon, true), (Backend::File, true)], 225, 256);
+  // the slow path is retried `maximum_retries` times: the two smallest values
+  for fl in [Fl::Optimistic, Fl::Pessimistic] {
+    for retries in [0u8, 1] {
+      let mut c = Cfg::new(fl, Backend::Vec, true, 256);
+      c.retries = retries;
+      cells.push(c);
+    }
+  }
   if thorough {
     for fl in Fl::ALL {
       let mut c = Cfg::new(fl, Backend::Vec, true, 256 + 8);
